@@ -132,6 +132,43 @@
             }
         };
     }
+    // slice_arg: the conversion of a bound / step (introduced by fix 3859045). Contract from the statement: Python clamps
+    // integers of any size - no sequence is longer than isize::MAX - so every integer converts, to the nearest i64.
+    macro_rules! slice_arg_int {
+        ($name:ident, $t:ty) => {
+            #[kani::proof]
+            #[kani::unwind(2)]
+            #[kani::stub(std::fmt::format, format_unreachable_c09)]
+            fn $name() {
+                let x: $t = kani::any();
+                let v = Value::from(x);
+                match slice_arg(v) {
+                    Ok(r) => {
+                        let want: i128 = if (x as i128) < 0 && <$t>::MIN != 0 { if (x as i128) < i64::MIN as i128 { i64::MIN as i128 } else { x as i128 } }
+                                         else if (x as u128) > i64::MAX as u128 { i64::MAX as i128 } else { x as i128 };
+                        assert!(r as i128 == want);
+                    }
+                    Err(e) => { std::mem::forget(e); assert!(false); }
+                }
+                kani::cover!(<$t>::MAX as u128 == i64::MAX as u128 || ((x as u128) > i64::MAX as u128 && !((x as i128) < 0 && <$t>::MIN != 0)), "clamped from above (or, for i64, reached)");
+            }
+        };
+    }
+    /// the contract says an integer bound never fails to convert, so building an error message is the violation
+    fn format_unreachable_c09(_args: std::fmt::Arguments<'_>) -> String {
+        assert!(false, "an error message was formatted for an integer slice bound");
+        kani::assume(false);
+        unreachable!()
+    }
+//# ob name=slice_arg_u64 stubs=format_unreachable_c09 fn=value::ops::slice_arg kind=complete stmt="every u64 bound / step converts to min(x, i64::MAX) and never fails"
+//# ob name=slice_arg_i64 stubs=format_unreachable_c09 fn=value::ops::slice_arg kind=complete stmt="every i64 bound / step converts to itself"
+//# ob name=slice_arg_u128 stubs=format_unreachable_c09 fn=value::ops::slice_arg kind=complete stmt="every u128 bound / step converts to min(x, i64::MAX) and never fails"
+//# ob name=slice_arg_i128 stubs=format_unreachable_c09 fn=value::ops::slice_arg kind=complete stmt="every i128 bound / step converts to its clamp into [i64::MIN, i64::MAX] and never fails"
+    slice_arg_int!(slice_arg_u64, u64);
+    slice_arg_int!(slice_arg_i64, i64);
+    slice_arg_int!(slice_arg_u128, u128);
+    slice_arg_int!(slice_arg_i128, i128);
+
 //# ob name=slice_bytes_n2_zero fn=value::ops::slice kind=bounded bound="len 2, step 0" stmt="a zero step is an error"
     slice_bytes!(slice_bytes_n2_zero, 2, Some(kani::any()), None, Some(0), 4);
 
